@@ -121,11 +121,18 @@ def run_cases(ck: Check, n_small: int, n_large: int):
         kb, sb = get_structure_factor(ScalarField(grid, c * np.roll(np.flip(data, axis=ax), shift, axis=tuple(range(dim)))), smoothing=sm, wave_numbers=req)
         if not np.allclose(sb, sa, rtol=1e-7, atol=1e-12):
             ck.fail("smoothed structure factor is not invariant under scaling+translation+reflection", {**sig, "check": "smoothed_invariant"}, case)
-        for kw in (dict(smoothing=None), dict(smoothing=sm, wave_numbers=req), dict(smoothing="none"), dict(smoothing=0)):
+        # requested wave numbers in every documented form: starting at 0, unsorted, repeated, a single one, list / tuple / array
+        variants = [np.r_[0.0, req], req[::-1].copy(), [float(req[2]), float(req[2]), 0.0], (float(req[0]),), list(map(float, req))]
+        req2 = variants[i % len(variants)]
+        ck.count("requested_wave_numbers_variant_%d" % (i % len(variants)))
+        kc, sc = get_structure_factor(field, smoothing=sm, wave_numbers=req2)
+        if not np.array_equal(kc, np.array(req2)) or len(sc) != len(req2):
+            ck.fail(f"smoothed structure factor does not return the requested wave numbers {req2}", {**sig, "check": "smoothed_returns_requested"}, {**case, "wave_numbers": list(map(float, req2))})
+        for kw in (dict(smoothing=None), dict(smoothing=sm, wave_numbers=req), dict(smoothing=sm, wave_numbers=req2), dict(smoothing="none"), dict(smoothing=0)):
             k0, s0 = get_structure_factor(field, add_zero=False, **kw)
             kz, sz = get_structure_factor(field, add_zero=True, **kw)
             if not (kz[0] == 0 and sz[0] == 1 and np.array_equal(kz[1:], k0) and np.array_equal(sz[1:], s0)):
-                ck.fail(f"add_zero does not prepend (0, 1) for options {kw}", {**sig, "check": "add_zero_prepends"}, case)
+                ck.fail(f"add_zero does not prepend (0, 1) for options {kw}", {**sig, "check": "add_zero_prepends"}, {**case, "options": repr(kw)})
             if kw.get("smoothing") in (None, "none", 0) and not (np.array_equal(k0, k) and np.array_equal(s0, s)):
                 ck.fail(f"smoothing={kw.get('smoothing')!r} does not return the raw spectrum", {**sig, "check": "unsmoothed_is_raw"}, case)
         kauto, sauto = get_structure_factor(field)  # defaults: smoothing and wave numbers automatic
